@@ -14,7 +14,6 @@ import Bmc.Proofs.GenDec.SDR
 import Bmc.Proofs.GenDec.GetSensorReadingRsp
 import Bmc.Proofs.GenDec.GetChannelCipherSuitesRsp
 import Bmc.Proofs.GenDec.GetChannelAuthenticationCapabilitiesRsp
-import Bmc.Proofs.GenDec.GetSDRRepositoryInfoRsp
 import Bmc.Proofs.GenDec.GetPowerReadingRsp
 import Bmc.Proofs.GenDec.GetChassisStatusRsp
 import Bmc.Proofs.GenDec.GetDeviceIDRsp
@@ -158,7 +157,6 @@ import Bmc.Proofs.ApiWrappers
 #print axioms Bmc.Proofs.GenDec.GetSensorReadingRsp_gen_eq
 #print axioms Bmc.Proofs.GenDec.GetChannelCipherSuitesRsp_gen_eq
 #print axioms Bmc.Proofs.GenDec.GetChannelAuthenticationCapabilitiesRsp_gen_eq
-#print axioms Bmc.Proofs.GenDec.GetSDRRepositoryInfoRsp_gen_eq
 #print axioms Bmc.Proofs.GenDec.GetPowerReadingRsp_gen_eq
 #print axioms Bmc.Proofs.GenDec.GetChassisStatusRsp_gen_eq
 #print axioms Bmc.Proofs.GenDec.GetDeviceIDRsp_gen_eq
